@@ -1250,6 +1250,9 @@ htp_status_t htp_connp_RES_IDLE(htp_connp_t *connp) {
         if (connp->out_tx == NULL) {
             return HTP_ERROR;
         }
+        // The new transaction is now also the inbound transaction: the
+        // request side must not continue in the state of the old one.
+        connp->in_state = htp_connp_REQ_FINALIZE;
         connp->out_tx->parsed_uri = htp_uri_alloc();
         if (connp->out_tx->parsed_uri == NULL) {
             return HTP_ERROR;
@@ -1263,7 +1266,6 @@ htp_status_t htp_connp_RES_IDLE(htp_connp_t *connp) {
             return HTP_ERROR;
         }
 
-        connp->in_state = htp_connp_REQ_FINALIZE;
 #ifdef HTP_DEBUG
         fprintf(stderr, "picked up response w/o request");
 #endif
